@@ -78,6 +78,9 @@ type world struct {
 	users   map[int]neotest.Signer
 	q       [][][]byte  // current query groups
 	alpha   *alphaWorld // Alphabet cases: the contract's surroundings
+	gate    bool        // directed gate case (see caseSpec.gate)
+	nefOk   bool        // the last update passed a valid executable
+	sigLine string      // signer tags of the last update
 }
 
 func pubs(c *chainx.Chain, ids []int) [][]byte {
@@ -97,24 +100,59 @@ func anyBytes(bs [][]byte) []any {
 	return out
 }
 
+// setupAbort ends the set-up of a case that cannot be built because the contracts under test refused a step the
+// property itself speaks about (reported through the monitor before the panic); the case is skipped.
+type setupAbort struct{}
+
+// setupFailed: a set-up transaction FAULTed. Where the failing call is a committee-gated NNS call and the transaction
+// carried the genuine committee-majority witness (the n/2+1 account c.Cmt signs every set-up step) - recognisable
+// without ambiguity by the panic text of nns.checkCommittee, the only place that raises it - this is an observation
+// about the gate, not a harness problem: it goes to the monitor and the case is skipped. Everything else stays a crash.
+func (w *world) setupFailed(site, what string, r chainx.Result) {
+	if strings.Contains(r.Fault, "not witnessed by committee") {
+		w.run.Violation(prop, site, "committee-majority-rejected", fmt.Sprintf(
+			"set-up (%s) with the witness of the %d-of-%d committee-majority account was refused by the NNS committee check: %s",
+			what, w.n/2+1, w.n, r.Fault))
+		panic(setupAbort{})
+	}
+	w.t.Fatalf("%s failed: %s", what, r.Fault)
+}
+
 func (w *world) mustDeploy(ct *neotest.Contract, data any) util.Uint160 {
 	h, r := w.c.DeployFresh(ct, data)
 	if !r.Halt {
-		w.t.Fatalf("deployment of %s failed: %s", ct.Manifest.Name, r.Fault)
+		// the only committee-gated NNS call a deployment makes is Container's registerTLD
+		w.setupFailed("nns.registerTLD", "deployment of "+ct.Manifest.Name, r)
 	}
 	return h
+}
+
+// registerNNS registers <name>.neofs with a TXT record holding the hash; signed by the committee majority (which
+// is also the owner of the name), as chainx.RegisterNNS does, but a refusal is classified instead of fatal.
+func (w *world) registerNNS(name string, h util.Uint160) {
+	const msPerYear = 365 * 24 * 3600 * 1000
+	c := w.c
+	r := c.Invoke([]neotest.Signer{c.Cmt}, c.NNSHash(), "register", name+".neofs", c.Cmt.ScriptHash(), "ops@nspcc.ru",
+		int64(3600), int64(600), int64(10*msPerYear), int64(3600))
+	if !r.Halt {
+		w.setupFailed("nns.register", "register "+name+".neofs", r)
+	}
+	r = c.Invoke([]neotest.Signer{c.Cmt}, c.NNSHash(), "addRecord", name+".neofs", int64(16), h.StringLE())
+	if !r.Halt {
+		w.setupFailed("nns.addRecord", "addRecord "+name+".neofs", r)
+	}
 }
 
 func (w *world) deployNetmapDep() {
 	w.mustDeploy(w.c.Compile("nns"), []any{[]any{[]any{"neofs", "ops@nspcc.io"}}})
 	w.netmap = w.mustDeploy(w.c.Compile("netmap"), []any{false, util.Uint160{}, util.Uint160{},
 		[]any{w.c.Members[0].Account().PublicKey().Bytes()}, []any{}})
-	w.c.RegisterNNS("netmap", w.netmap)
+	w.registerNNS("netmap", w.netmap)
 }
 
 func newWorld(t testing.TB, run *hx.Run, sc *chainx.Scratch, cs caseSpec) *world {
 	kind, n, v, wf := cs.kind, cs.n, cs.v, cs.wf
-	w := &world{t: t, run: run, kind: kind, n: n, v: v, wf: wf, users: map[int]neotest.Signer{}}
+	w := &world{t: t, run: run, kind: kind, n: n, v: v, wf: wf, users: map[int]neotest.Signer{}, gate: cs.gate}
 	if kind == "alphabet" {
 		w.c = chainx.New(t, n, notaryChain) // with the native Notary contract
 	} else {
@@ -625,6 +663,7 @@ func (w *world) execOp(line string) (string, string) {
 		}
 		role := parseIDs(attr(fs, "role"))
 		nef := w.newNef
+		w.nefOk, w.sigLine = attr(fs, "nef") != "bad", sig
 		if attr(fs, "nef") == "bad" {
 			nef = append([]byte{}, nef[:len(nef)/2]...)
 		}
@@ -697,6 +736,9 @@ type caseSpec struct {
 	sn       int
 	short    bool
 	nnsProxy bool
+	// directed gate case: version inside the gate, storage as deployed, default data, valid executable - nothing but
+	// the witness decides, so `update` must succeed IFF the majority account signed
+	gate bool
 }
 
 func b01(b bool) string {
@@ -712,6 +754,9 @@ func (cs caseSpec) line() (string, []string) {
 		k = "nonwf"
 	}
 	attrs := []string{k, "k=" + cs.kind, fmt.Sprintf("n=%d", cs.n), fmt.Sprintf("v=%d", cs.v), "role=" + fmtIDs(cs.role)}
+	if cs.gate {
+		attrs = append(attrs, "gate=1")
+	}
 	if cs.kind == "alphabet" {
 		attrs = append(attrs, "gas="+cs.gas, fmt.Sprintf("sn=%d", cs.sn), "short="+b01(cs.short), "nnsp="+b01(cs.nnsProxy))
 	}
@@ -731,16 +776,28 @@ func parseCase(l string) caseSpec {
 	cs.sn, _ = strconv.Atoi(attr(fs, "sn"))
 	cs.short = attr(fs, "short") == "1"
 	cs.nnsProxy = attr(fs, "nnsp") == "1"
+	cs.gate = attr(fs, "gate") == "1"
 	return cs
 }
 
-func startCase(t testing.TB, run *hx.Run, sc *chainx.Scratch, cs caseSpec) *world {
-	w := newWorld(t, run, sc, cs)
-	w.designate(cs.role)
+// startCase builds the world of a case; nil when the set-up was refused by the contracts under test (reported
+// through the monitor, see setupFailed): the case then consists of its `case` line only.
+func startCase(t testing.TB, run *hx.Run, sc *chainx.Scratch, cs caseSpec) (w *world) {
 	id, attrs := cs.line()
 	run.Case(id, attrs...)
 	run.Count("kind." + cs.kind)
 	run.Count(fmt.Sprintf("from.%d", cs.v))
+	defer func() {
+		if r := recover(); r != nil {
+			if _, ok := r.(setupAbort); !ok {
+				panic(r)
+			}
+			run.Count("setup.refused")
+			w = nil
+		}
+	}()
+	w = newWorld(t, run, sc, cs)
+	w.designate(cs.role)
 	return w
 }
 
@@ -754,13 +811,18 @@ func TestRun(t *testing.T) {
 	defer sc.Close()
 	if run.Mode == "replay" {
 		var w *world
+		started := false
 		for _, l := range run.ReplayLines() {
 			if strings.HasPrefix(l, "case ") {
 				w = startCase(t, run, sc, parseCase(l))
+				started = true
 				continue
 			}
-			if w == nil {
+			if !started {
 				t.Fatal("op before case")
+			}
+			if w == nil {
+				continue // the set-up of this case was refused (monitor hit): its operations cannot run
 			}
 			line, obs := w.execOp(l)
 			run.Op(line, obs)
